@@ -1133,10 +1133,7 @@ def reshape_lockstep(rep: Report, ctx: Ctx, rule: str) -> None:
     from .effspec import before, effects, expect
     per_path = _per_path_lists(ctx)
     index_maps = {"_path_indexes", "_merged_path_indexes"}
-    # pending triage (DESIGN section 9): impossible_and_or_merges is neither
-    # popped nor rebuilt on the pinned tree
-    lists = sorted(a for a in per_path if a not in index_maps
-                   and a != "impossible_and_or_merges")
+    lists = sorted(a for a in per_path if a not in index_maps)
     # ---- pop of a finished path
     sp = ctx.func("LogicBlockHolder.set_path_node")
     effs = effects(ctx, sp)
